@@ -477,8 +477,20 @@ def check_mode_option(chk, main_tu):
     occurrence stick (`-d gnu-ld -d arrays` would still create the datasegments file of the gnu-ld mode)"""
     body = astdb.fn_body(main_tu.fn('main'))
     n = 0
+    # where to look: the arms of main's option switch, and the functions of main.c outside main (a helper that maps the name to the mode
+    # and stores it through a pointer parameter)
+    regions = []
     for sw in [x for x in walk(body) if x.get('kind') == 'SwitchStmt']:
         for labels, st in switch_arm_runs(sw, main_tu):
+            regions.append(('/'.join(sorted(('-%s' % chr(v)) if isinstance(v, int) and 32 < v < 127 else str(v) for v in labels)), st))
+    for opt, st in list(regions):
+        for c in walk(st):
+            fname = astdb.callee_name(c) if c.get('kind') == 'CallExpr' else None
+            fdecl = main_tu.functions.get(fname) if fname and fname != 'main' else None
+            fb = astdb.fn_body(fdecl) if fdecl is not None else None
+            if fb is not None and all(r[1] is not fb for r in regions):
+                regions.append(('%s (%s())' % (opt, fname), fb))
+    for opt, st in regions:
             branches = []       # (mode name, then-statement)
             for i_ in walk(st):
                 if i_.get('kind') != 'IfStmt':
@@ -495,8 +507,8 @@ def check_mode_option(chk, main_tu):
                 continue
             assigned = {}
             for name, then in branches:
-                vs = {astdb.ref_name(astdb.strip(kids(x)[0])) for x in walk(then)
-                      if x.get('kind') == 'BinaryOperator' and x.get('opcode') == '=' and astdb.ref_name(astdb.strip(kids(x)[0]))}
+                vs = {astdb.expr_text(astdb.strip(kids(x)[0])).replace(' ', '') for x in walk(then)
+                      if x.get('kind') == 'BinaryOperator' and x.get('opcode') == '='}
                 assigned[name] = vs
             common = {}
             for vs in assigned.values():
@@ -504,18 +516,17 @@ def check_mode_option(chk, main_tu):
                     common[v] = common.get(v, 0) + 1
             if not common:
                 continue
-            var = max(common, key=common.get)
-            opt = sorted(('-%s' % chr(v)) if isinstance(v, int) and 32 < v < 127 else str(v) for v in labels)
+            var = max(sorted(common), key=common.get)
             for name, vs in sorted(assigned.items()):
                 returns = any(x.get('kind') == 'ReturnStmt' for x in walk(dict(branches)[name]))
                 if returns and var not in vs:
                     continue        # e.g. "help": prints and leaves
                 n += 1
-                chk.expect(var in vs, 'R20.7', 'mode-option-sets-mode[%s %s]' % ('/'.join(opt), name),
+                chk.expect(var in vs, 'R20.7', 'mode-option-sets-mode[%s %s]' % (opt, name),
                            'the option %s %s does not assign %s (the other mode names do): it relies on the initial value, so an earlier %s on the same '
                            'command line stays in effect - e.g. `%s gnu-ld %s %s` still runs in the earlier mode and creates that mode\'s files'
-                           % ('/'.join(opt), name, var, '/'.join(opt), '/'.join(opt), '/'.join(opt), name), 'main:option-switch')
-    chk.require(n >= 3, 'no mode-selecting option found in main (expected -d)')
+                           % (opt, name, var, opt, opt, opt, name), 'main:option-switch')
+    chk.require(n >= 3, 'no mode-selecting option (a chain of string comparisons with the mode names) found in main.c (expected -d)')
 
 
 def remove_language(chk, main_tu, L):
